@@ -46,6 +46,6 @@ def map_sample_view(spec):
         'n_ref_genes': len(spec['ref']['genes']), 'ref_family': spec['ref'].get('family'),
         'markers': {k: len(v) for k, v in spec['markers'].items()},
         'query': {'n_cells': len(q['cells']), 'n_genes': len(q['genes']), 'dtype': q['dtype'], 'enc': q['enc'],
-                  'seed': q.get('seed')},
+                  'index_dtype': q.get('idx_dtype'), 'seed': q.get('seed')},
         'cfg': spec['cfg'],
     }
